@@ -30,6 +30,32 @@ def _functions(files: Iterable[str] = ()):
 
 
 # ------------------------------------------------------------------------------------------ C04: class / module state
+def _shared_class_object(ci: ClassInfo, attr: str) -> bool:
+    """attr is declared at class level with a mutable display / constructor as default, in a class that is not a pydantic model
+    (pydantic copies field defaults per instance), and no method of the class hierarchy assigns `self.attr = ...`."""
+    owner = None
+    for c in ci.mro():
+        if attr in c.fields:
+            owner = c
+            break
+    if owner is None:
+        return False
+    d = owner.fields[attr][1]
+    mutable = isinstance(d, (ast.Dict, ast.List, ast.Set)) or (isinstance(d, ast.Call) and isinstance(d.func, ast.Name) and d.func.id in ("dict", "list", "set", "defaultdict"))
+    if not mutable:
+        return False
+    if any(b.split(".")[-1] in ("BaseModel", "BaseSettings") for b in ci.all_ext_bases()):
+        return False
+    for c in list(ci.mro()) + list(ci.subclasses()):
+        for m in c.methods.values():
+            for n in ast.walk(m.node):
+                if isinstance(n, (ast.Assign, ast.AnnAssign)):
+                    for t in (n.targets if isinstance(n, ast.Assign) else [n.target]):
+                        if isinstance(t, ast.Attribute) and isinstance(t.value, ast.Name) and t.value.id == "self" and t.attr == attr:
+                            return False
+    return True
+
+
 def class_state_stores(allow: Dict[str, str]) -> List[dict]:
     """Stores to class attributes / module globals and mutations of module-level or ClassVar mutable objects from
     inside functions.  Allowed without listing: __init_subclass__ registries.  `allow` maps 'qualname:attr' -> reason."""
@@ -94,6 +120,19 @@ def class_state_stores(allow: Dict[str, str]) -> List[dict]:
                             site = f"{is_class_expr(b.value)}.{b.attr}[...]"
                     if site:
                         out.append((fi, sub.lineno, site, id(n) in conditional))
+            # self.X.<mutator>() / self.X[k] = v where X is a class-level mutable object of a plain (non-pydantic) class that no method
+            # rebinds per instance: the one object is shared by all instances
+            shared = None
+            if isinstance(n, ast.Call) and isinstance(n.func, ast.Attribute) and n.func.attr in MUTATORS:
+                shared = (n.func.value, f".{n.func.attr}()")
+            elif isinstance(n, (ast.Assign, ast.AugAssign)):
+                for t_ in (n.targets if isinstance(n, ast.Assign) else [n.target]):
+                    if isinstance(t_, ast.Subscript):
+                        shared = (t_.value, "[...]")
+            if shared is not None and fi.cls is not None:
+                b_, how = shared
+                if isinstance(b_, ast.Attribute) and isinstance(b_.value, ast.Name) and b_.value.id == "self" and _shared_class_object(fi.cls, b_.attr):
+                    out.append((fi, n.lineno, f"self.{b_.attr}{how}:class-level-object", False))
             if isinstance(n, ast.Call) and isinstance(n.func, ast.Attribute) and n.func.attr in MUTATORS:
                 b = n.func.value
                 if isinstance(b, ast.Name) and b.id in mutable_globals and b.id not in local_names:
@@ -448,4 +487,51 @@ def built_games_are_set_up(files=("src/primaite/session/",)) -> List[dict]:
                            "" if ok else f"{fi.key} line {b.lineno}: builds a game with PrimaiteGame.from_config but never runs setup_for_episode on it, "
                                          f"while reset() does: the first episode starts from a differently prepared simulation than every later one",
                            "every function that builds a game also sets it up for its episode"))
+    return obs
+
+
+# ------------------------------------------------------------------- C04: cached values must not outlive what they were computed from
+CACHE_DECOS = ("cached_property", "functools.cached_property", "lru_cache", "functools.lru_cache", "cache", "functools.cache")
+
+
+def cached_values_stay_valid() -> List[dict]:
+    """A cached property / memoised method of class C that reads (directly or through other properties of C) an attribute which
+    another method of C re-assigns after construction keeps returning the value computed from the OLD object -- e.g. the spaces
+    of an environment whose game is rebuilt by reset().  One obligation per cached function."""
+    obs = []
+    repo = Repo.get()
+    by_cls: Dict[int, list] = {}
+    for fi in repo.all_functions():
+        if fi.cls is not None:
+            by_cls.setdefault(id(fi.cls), []).append(fi)
+    for fi in repo.all_functions():
+        if fi.cls is None or not any(d.split("(")[0] in CACHE_DECOS for d in fi.decorators):
+            continue
+        methods = {m.name: m for c in fi.cls.mro() for m in c.methods.values()}
+
+        def reads(m, seen):
+            out = set()
+            for n in ast.walk(m.node):
+                if isinstance(n, ast.Attribute) and isinstance(n.value, ast.Name) and n.value.id == "self" and isinstance(n.ctx, ast.Load):
+                    out.add(n.attr)
+                    m2 = methods.get(n.attr)
+                    if m2 is not None and m2.is_property and m2.name not in seen:
+                        out |= reads(m2, seen | {m2.name})
+            return out
+        r = reads(fi, {fi.name})
+        culprit = None
+        for m in methods.values():
+            if m.name in ("__init__", "__post_init__", "model_post_init") or m is fi:
+                continue
+            for n in ast.walk(m.node):
+                if isinstance(n, (ast.Assign, ast.AnnAssign, ast.AugAssign)):
+                    for t in (n.targets if isinstance(n, ast.Assign) else [n.target]):
+                        if isinstance(t, ast.Attribute) and isinstance(t.value, ast.Name) and t.value.id == "self" and t.attr in r:
+                            culprit = (m.qualname, t.attr, n.lineno)
+        obs.append(_ob("scan", f"cached_value@{fi.qualname}", fi.node.lineno, "failed" if culprit else "discharged",
+                       "" if not culprit else f"{fi.key}: cached, but computed from self.{culprit[1]}, which {culprit[0]} re-assigns (line {culprit[2]}): "
+                                              f"after that the cached value describes the old object",
+                       "a cached value does not depend on an attribute that is re-assigned after construction"))
+    if not obs:
+        obs.append(_ob("scan", "cached_value@none", 0, "discharged", "", "no cached property / memoised method in the tree"))
     return obs
